@@ -30,7 +30,7 @@ RULE = ('Configurations incl. positional-only parameters with defaults, defaults
         'first two; idempotence / completeness of materialize_defaults; serializability kept. '
         'Non-trivial: the transform changed the configuration; distinct = (DAG sketch, transform).')
 RULE_ADDITIONS = (' Added by the rounds of seeded changes (DESIGN 9.7): ' +
-                  'raises:inline:positional-arguments | TypeError | fix; inline with arguments shared with the enclosing tree; InitVar defaults, dataclass subclasses with their own __init__')
+                  'raises:inline:positional-arguments | TypeError | fix; inline with arguments shared with the enclosing tree; InitVar defaults, dataclass subclasses with their own __init__; inline of bodies that specialise one partial twice / a partial shared with the tree')
 RULE = RULE + RULE_ADDITIONS
 ASSUMPTIONS = [
     'a built functools.partial whose bindings all equal the callable\'s defaults is identified '
